@@ -16,7 +16,7 @@ import warnings
 from ..compile import World
 from ..ctx import CTX, RunTooBig
 from ..history import History, canon, canon_outcome, digest
-from ..rng import Streams, chance, pick, weighted
+from ..rng import Streams, chance, pick, weighted, steps
 from .. import seams
 from ..sim import _guard, apply_knobs, apply_op, build_sim, set_input
 from ..world import ExprGen, gen_inputs, gen_request, gen_situation, gen_world
@@ -240,7 +240,7 @@ def generate(seed: int, tier: str) -> dict:
     evaluated = set()
     counter = [0]
     ops = []
-    for _ in range(orr.randint(4, 10 if tier == "quick" else 18)):
+    for _ in range(steps(orr, 4, 10 if tier == "quick" else 18, factor=3)):
         r = orr.random()
         ids = list(specs)
         ids = [i for i in ids if i not in dropped]
